@@ -33,14 +33,16 @@ example : WellFormed [⟨"a", none⟩, ⟨"b", some (.lit (.int 2))⟩, ⟨"c", 
       simp only [Key.pos.injEq, eq_iff_iff, iff_false]; omega
     simp [lookup, this]
 
-/-- **Binding at call level** (`…_partial`: the hypothesis `noReserved` of `WellFormedCall` excludes
-    exactly the region of the open finding `reserved-parameter-name`).  For the StartFlow event the
+/-- **Binding at call level**.  The hypothesis `noReserved` of `WellFormedCall` (no parameter is named
+    like an internal StartFlow key) is what the proposed parser fix `fixes/C08-reserved-parameter-names.diff`
+    guarantees for every accepted program; on the unpatched tree it excludes exactly the region of the
+    open finding `reserved-parameter-name`.  For the StartFlow event the
     interpreter builds from the user's arguments `ua` (adding flow_id, flow_instance_uid, activated,
     source_flow_instance_uid, source_head_uid, flow_hierarchy_position), parameter `i` holds the
     statement's value computed from `ua` alone.
     Full statement (false as the code is, see `reserved_name_as_is_counterexample`): the same
     without `noReserved`. -/
-theorem bind_spec_call_partial (params rets : List Param) (ua : Ctx) (k : Nat) (form : CallForm) (flow : String)
+theorem bind_spec_call (params rets : List Param) (ua : Ctx) (k : Nat) (form : CallForm) (flow : String)
     (n caller : Nat) (h : WellFormedCall params rets ua k) :
     ∃ f0 f, createFlowInstance flow params rets (startArgs ua form flow n caller) = .ok f0 ∧
       startFlow false (startArgs ua form flow n caller) f0 = .ok f ∧
@@ -145,5 +147,27 @@ example : Fresh { insts := [(0, { flowId := "main", arguments := [], context := 
   intro x hx
   simp [uids] at hx
   rcases hx with h | h <;> simp [h]
+
+/-- Kernel-checked counterexample for the code as it is (open finding
+    `inplace-mutation-of-passed-container`), in the reference-semantics side model: the callee's
+    parameter refers to the caller's list object, so the callee's in-place `append` shows through the
+    caller's variable. (finite fact, by evaluation) -/
+theorem inplace_alias_as_is_counterexample :
+    Heap.read (Heap.appendInPlace (Heap.bindByRef { heap := [(0, [.int 1])], vars := [((0, "l"), 0)] } 0 1 "l" "l") 1 "l" (.int 9)) 0 "l"
+      = some [.int 1, .int 9] ∧
+    Heap.read { heap := [(0, [.int 1])], vars := [((0, "l"), 0)] } 0 "l" = some [.int 1] := by
+  constructor <;> simp [Heap.read, Heap.appendInPlace, Heap.bindByRef, Heap.addrOf, Heap.cell, Heap.updCell]
+
+/-- `…_partial` companion: where two variables do not share an object (the hypothesis excludes exactly
+    the finding's region), an in-place mutation through one is invisible through the other — for every
+    heap, instances and variables. -/
+theorem inplace_private_partial (s : Heap.HSt) (u w : Nat) (x y : String) (v : Val)
+    (h : Heap.addrOf w y s.vars ≠ Heap.addrOf u x s.vars) :
+    Heap.read (Heap.appendInPlace s u x v) w y = Heap.read s w y :=
+  Heap.read_appendInPlace_of_no_sharing s u w x y v h
+
+/-- non-vacuity: caller and callee variables with distinct objects -/
+example : Heap.addrOf 0 "l" [((0, "l"), 0), ((1, "l"), 1)] ≠ Heap.addrOf 1 "l" [((0, "l"), 0), ((1, "l"), 1)] := by
+  simp [Heap.addrOf]
 
 end NemoVerif.C08
